@@ -499,6 +499,13 @@ func (ts *TermStore) Select(a, i *Term) *Term {
 
 // distinctOffsets: i = x + c1, j = x + c2 with c1 != c2
 func (ts *TermStore) distinctOffsets(i, j *Term) bool {
+	if i.Op == "app" && j.Op == "app" && i.Name == "elem.idx" && j.Name == "elem.idx" && i.Args[0] == j.Args[0] {
+		a, b := i.Args[1], j.Args[1]
+		if a.Op == "int" && b.Op == "int" {
+			return a.Int.Cmp(b.Int) != 0
+		}
+		return ts.distinctOffsets(a, b)
+	}
 	bi, ci := splitOffset(i)
 	bj, cj := splitOffset(j)
 	return bi == bj && bi != nil && ci.Cmp(cj) != 0
